@@ -2,10 +2,13 @@ import Verif.Model.SCEP
 /-!
   Line-protocol driver for C15 (SCEP PKI operation).
 
+  `wiring`                                  → routes, operations per handler, methods, mounts of the model
   `facts`                                   → the message-type sets of `Verif.SCEP.asCoded`, rendered exactly
                                               like the harness's source extractor renders what it finds
-  `pki http= p7= tid= mt=x<hex>|! sn=ok|empty|none st=x<hex>|! rn= fi= inner= dec=
-       env=csr|badsig|nocsr|cperr cp=x<hex> degen=<n>|! signok= certs=<r|n per certificate>|- signer=<pos>|!
+  `pki meth=get|post|head|other path=root|name|rest lookup=scep|other|missing|badesc qok= op=pki|cacert|cacaps|none|other
+       ppair=<cert><key> ddec=<cert><key> dsig=<cert><key> inter=<n> roots=<n> exint= incroot= caps=x<hex>,…|-
+       http= p7= tid= mt=x<hex>|! sn=ok|empty|none st=x<hex>|! rn= fi= inner= decp= decd=
+       env=csr|badsig|nocsr|cperr cp=x<hex> degen=<n>|! cn=x<hex> sans=<d|e|i|u>:x<hex>,…|- cnk=<d|e|i|u> forcecn= signok= certs=<r|n per certificate>|- signer=<pos>|!
        secret=x<hex> hooks=<kind>:<ct>:<a|d|e>,…|- inits=<times Init ran on the provisioner object, ≥ 1>`
   `init inits=<n> secret=x<hex> hooks=…`    → `init webhooks=<Options.Webhooks after the Inits>`
   Output: ok … | fail:<info> … | http5xx … | crash … | parse-error
@@ -32,14 +35,25 @@ def env? : String → Option Env
 def degen? (t : String) : Option (Option Nat) :=
   if t = "!" then some none else t.toNat?.map some
 
+def attempt? : Char → Option Attempt
+  | 'a' => some .allow | 'd' => some .deny | '4' => some .s4xx | '5' => some .s5xx | 'j' => some .badJson | _ => none
+
+/-- webhook answers: one character for the first exchange (a d 4 5 j), optionally a second one for
+    the retry -/
+def attempts? (t : String) : Option (Attempt × Attempt) :=
+  match t.toList with
+  | [x] => do pure ((← attempt? x), .s5xx)
+  | [x, y] => do pure ((← attempt? x), (← attempt? y))
+  | _ => none
+
 def hook? (t : String) : Option Hook :=
   match t.splitOn ":" with
   | [k, ct, r] => do
     let k ← match k with | "scep" => some HookKind.scep | "notify" => some .notify | _ => none
     let ct ← match ct with
       | "x509" => some CertType.x509 | "ssh" => some .ssh | "all" => some .all | "none" => some .unset | _ => none
-    let r ← match r with | "a" => some HookRes.allow | "d" => some .deny | "e" => some .error | _ => none
-    pure ⟨k, ct, r⟩
+    let (f, s2) ← attempts? r
+    pure ⟨k, ct, f, s2⟩
   | _ => none
 
 def hooks? (t : String) : Option (List Hook) :=
@@ -61,8 +75,29 @@ def factsS (F : Facts) : String :=
 def natsS (l : List Nat) : String :=
   if l.isEmpty then "-" else ",".intercalate (l.map toString)
 
-def replyS (q : Req) (r : Reply) : String :=
-  let signer := if r.signedByCA then "ca" else "other"
+def kindS : NameKind → String
+  | .dns => "d" | .email => "e" | .ip => "i" | .uri => "u"
+
+def issuedS : Option Issued → String
+  | none => " subj=! names=-"
+  | some c =>
+    let l := (c.dns.map fun x => "d:x" ++ hex x) ++ (c.emails.map fun x => "e:x" ++ hex x) ++
+             (c.ips.map fun x => "i:x" ++ hex x) ++ (c.uris.map fun x => "u:x" ++ hex x)
+    s!" subj=x{hex c.cn} names={if l.isEmpty then "-" else ",".intercalate l}"
+
+def kind? : String → Option NameKind
+  | "d" => some .dns | "e" => some .email | "i" => some .ip | "u" => some .uri | _ => none
+
+def san? (t : String) : Option (NameKind × Str) :=
+  match t.splitOn ":" with
+  | [k, v] => do pure ((← kind? k), (← str? v))
+  | _ => none
+
+def sans? (t : String) : Option (List (NameKind × Str)) :=
+  if t = "-" then some [] else (t.splitOn ",").mapM san?
+
+def replyS (q : Req) (r : Reply) (w : Which) : String :=
+  let signer := if r.signedByCA then (match w with | .dflt => "ca" | .prov => "prov") else "other"
   match r.status with
   | .success =>
     -- enc: the requester (the certificate whose key signed the request) can open the envelope
@@ -74,13 +109,40 @@ def replyS (q : Req) (r : Reply) : String :=
     let fi := match r.failInfo with | some n => toString n | none => ""
     s!"fail:{fi} inner={r.inner} outer={r.outer} signer={signer} nonce=1"
 
-def resultS (q : Req) : M Result → String
-  | .crash => "crash hooks=0 notif=0 db=0"
+def tagS : CertTag → String
+  | .provDecrypter => "pd" | .inter i => s!"i{i}" | .root i => s!"r{i}"
+
+def strS (t : Str) : String := String.ofList (t.map Char.ofNat)
+
+def servedS (q : Req) (iss : Option Issued) : M Served → String
+  | .crash => "crash hooks=0 http=0 notif=0 db=0"
   | .val r =>
     let head := match r.out with
-      | .http500 => "http5xx"
-      | .reply rp => replyS q rp
-    s!"{head} hooks={r.hookCalls} notif={r.notifyCalls} db={r.stored}"
+      | .status404 => "http404"
+      | .status405 => "http405"
+      | .fail500 => "http5xx"
+      | .caCert ra certs => s!"cacert ra={if ra then 1 else 0} certs={",".intercalate (certs.map tagS)}"
+      | .caCaps caps => s!"cacaps {",".intercalate (caps.map strS)}"
+      | .pkiReply rp w => replyS q rp w ++ (if rp.status == Status.success then issuedS iss else "")
+    s!"{head} hooks={r.hookCalls} http={r.hookHttp} notif={r.notifyCalls} db={r.stored}"
+
+def pair? (t : String) : Option KeyPair :=
+  match t.toList with
+  | [a, b] => do pure ⟨(← bool? (String.singleton a)), (← bool? (String.singleton b))⟩
+  | _ => none
+
+def meth? : String → Option Meth
+  | "get" => some .get | "post" => some .post | "head" => some .head | "other" => some .other | _ => none
+def path? : String → Option PathShape
+  | "root" => some .root | "name" => some .name | "rest" => some .nameRest | _ => none
+def lookup? : String → Option Lookup
+  | "scep" => some .scep | "other" => some .otherType | "missing" => some .missing | "badesc" => some .badEscape | _ => none
+def op? : String → Option Op
+  | "none" => some .none | "cacert" => some .caCert | "cacaps" => some .caCaps | "pki" => some .pki | "other" => some .other
+  | _ => none
+
+def strList? (t : String) : Option (List Str) :=
+  if t = "-" then some [] else (t.splitOn ",").mapM str?
 
 def certs? (t : String) : Option (List Bool) :=
   if t = "-" then some [] else t.toList.mapM fun c => if c = 'r' then some true else if c = 'n' then some false else none
@@ -102,6 +164,29 @@ def tables (kv : List (String × String)) : Option Facts :=
   | some "before" => some asCodedBefore
   | some _ => none
 
+def methS : Meth → String
+  | .get => "GET" | .post => "POST" | .head => "HEAD" | .other => "OTHER"
+
+def opNameS : Op → String
+  | .caCert => "GetCACert" | .caCaps => "GetCACaps" | .pki => "PKIOperation" | .none => "" | .other => "?"
+
+/-- the operations a handler serves for a method, read off the model function `dispatchOp` -/
+def opsOf (hd : HandlerId) (m : Meth) : List Op :=
+  [Op.caCert, .caCaps, .pki, .other].filter fun o =>
+    dispatchOp hd { meth := m, path := .name, lookup := .scep, queryOk := true, op := o, decProv := true, decDflt := true }
+      == some o
+
+def joinS (l : List String) : String := if l.isEmpty then "-" else ",".intercalate l
+
+/-- the wiring the model is about, rendered like the harness's source extractor renders the source -/
+def wiringS : String :=
+  let routes := routesAsCoded.map fun e =>
+    s!"{methS e.meth}:{if e.star then "*" else "1"}:{match e.handler with | .get => "get" | .post => "post"}"
+  let methods := [Meth.get, .post, .head, .other].filter fun m =>
+    !(opsOf .get m).isEmpty || !(opsOf .post m).isEmpty
+  s!"routes={joinS routes} getops={joinS ((opsOf .get .get).map opNameS)} postops={joinS ((opsOf .post .post).map opNameS)} " ++
+  s!"methods={joinS (methods.map methS)} mounts={joinS (mountsAsCoded.map fun (a, b) => a ++ ":" ++ b)} gethead={joinS getHeadAsCoded}"
+
 def eval (line : String) : Option String := do
   let fs := fields line
   let kvOf := fun (rest : List String) => rest.filterMap fun f =>
@@ -110,8 +195,14 @@ def eval (line : String) : Option String := do
     | _ => none
   match fs with
   | "facts" :: rest => pure (factsS (← tables (kvOf rest)))
+  | "wiring" :: _ => pure wiringS
   | "pki" :: rest =>
     let kv := kvOf rest
+    let names : CsrNames := {
+      cn := ← str? (← lookup kv "cn")
+      sans := ← sans? (← lookup kv "sans")
+      cnKind := ← kind? (← lookup kv "cnk") }
+    let iss := issue (← bool? (← lookup kv "forcecn")) names
     let q : Req := {
       httpOk := ← bool? (← lookup kv "http")
       p7Ok := ← bool? (← lookup kv "p7")
@@ -122,17 +213,35 @@ def eval (line : String) : Option String := do
       rn := ← attr? (← lookup kv "rn")
       fi := ← attr? (← lookup kv "fi")
       innerOk := ← bool? (← lookup kv "inner")
-      decOk := ← bool? (← lookup kv "dec")
+      decOk := false   -- set by `withSelectedDecrypter`
       env := ← env? (← lookup kv "env")
       cp := ← str? (← lookup kv "cp")
       degen := ← degen? (← lookup kv "degen")
-      signOk := ← bool? (← lookup kv "signok")
+      -- the authority signs: key acceptable (input) and `forceCNOption` does not refuse
+      signOk := (← bool? (← lookup kv "signok")) && iss.isSome
       certs := ← certs? (← lookup kv "certs")
       signer := ← degen? (← lookup kv "signer") }
     let c : Config := { secret := ← str? (← lookup kv "secret"), hooks := ← hooks? (← lookup kv "hooks") }
     let inits ← (← lookup kv "inits").toNat?
+    let h : HttpReq := {
+      meth := ← meth? (← lookup kv "meth")
+      path := ← path? (← lookup kv "path")
+      lookup := ← lookup? (← lookup kv "lookup")
+      queryOk := ← bool? (← lookup kv "qok")
+      op := ← op? (← lookup kv "op")
+      decProv := ← bool? (← lookup kv "decp")
+      decDflt := ← bool? (← lookup kv "decd") }
+    let S : Server := {
+      provPair := ← pair? (← lookup kv "ppair")
+      dfltDecrypter := ← pair? (← lookup kv "ddec")
+      dfltSigner := ← pair? (← lookup kv "dsig")
+      nInter := ← (← lookup kv "inter").toNat?
+      nRoots := ← (← lookup kv "roots").toNat?
+      excludeIntermediate := ← bool? (← lookup kv "exint")
+      includeRoot := ← bool? (← lookup kv "incroot")
+      caps := ← strList? (← lookup kv "caps") }
     -- the handlers run on the controllers of the provisioner object, initialised `inits` times
-    pure (resultS q (pkiOperationP (← tables kv) (initN inits (Prov.new c)) q))
+    pure (servedS q iss (serve (← tables kv) routesAsCoded S (initN inits (Prov.new c)) h q))
   | "init" :: rest =>
     let kv := kvOf rest
     let c : Config := { secret := ← str? (← lookup kv "secret"), hooks := ← hooks? (← lookup kv "hooks") }
